@@ -65,7 +65,19 @@ class EventDomain(Domain):
     def _store_all(self, targets, value, stmt, states):
         for t in targets:
             if isinstance(t, (ast.Tuple, ast.List)):
-                states = self._store_all(t.elts, None, stmt, states)
+                # clients that track aliases may consult `_unpack_rhs`: the value an element of the unpacking may come from (the
+                # matching element of a literal right-hand side, else the whole right-hand side - a may-alias over-approximation)
+                prev = getattr(self, '_unpack_rhs', None)
+                for j, el in enumerate(t.elts):
+                    rhs = value if value is not None else prev
+                    if isinstance(rhs, (ast.Tuple, ast.List)) and len(rhs.elts) == len(t.elts) and \
+                            not any(isinstance(x, ast.Starred) for x in list(rhs.elts) + list(t.elts)):
+                        rhs = rhs.elts[j]
+                    self._unpack_rhs = rhs
+                    try:
+                        states = self._store_all([el], None, stmt, states)
+                    finally:
+                        self._unpack_rhs = prev
                 continue
             if isinstance(t, ast.Starred):
                 t = t.value
